@@ -5,14 +5,21 @@ package engines
 // Temporary() on every accept error, a canary honest node after every batch.
 
 import (
+	"crypto"
+	"crypto/ecdsa"
 	"crypto/ed25519"
+	"crypto/elliptic"
+	crand "crypto/rand"
+	"crypto/rsa"
 	"crypto/tls"
 	"crypto/x509"
+	"crypto/x509/pkix"
 	"encoding/base64"
 	"encoding/json"
 	"errors"
 	"fmt"
 	"io"
+	"math/big"
 	"math/rand"
 	"net"
 	"sort"
@@ -78,6 +85,11 @@ func newFzWorld(cfg int) *fzWorld {
 func (w *fzWorld) start() {
 	lc := world.LWCfg{}
 	if w.cfg&1 != 0 {
+		// this base listener announces its closure the way multiplexing and in-memory
+		// listeners do: with its own sentinel, which does not wrap net.ErrClosed
+		lc.BaseCloseErr = errors.New("mux: listener closed")
+	}
+	if w.cfg&1 != 0 {
 		lc.BaseTLS = baseTLSConfig()
 	}
 	var err error
@@ -115,6 +127,40 @@ func (c *cutConn) Read(b []byte) (int, error) {
 	return n, err
 }
 
+var (
+	oddCertOnce sync.Once
+	oddCerts    map[string]*tls.Certificate
+)
+
+// oddClientCert returns a self-signed client certificate whose key is not
+// Ed25519 (crypto/tls accepts ECDSA and RSA client certificates in TLS 1.3)
+func oddClientCert(kind string) *tls.Certificate {
+	oddCertOnce.Do(func() {
+		oddCerts = map[string]*tls.Certificate{}
+		now := time.Now()
+		mk := func(name string, priv crypto.Signer, ski []byte) {
+			tpl := &x509.Certificate{
+				SerialNumber: big.NewInt(now.UnixNano()), Subject: pkix.Name{CommonName: "odd-" + name}, DNSNames: []string{nodeenrollment.CommonDnsName},
+				NotBefore: now.Add(-5 * time.Minute), NotAfter: now.Add(24 * time.Hour), KeyUsage: x509.KeyUsageDigitalSignature,
+				ExtKeyUsage: []x509.ExtKeyUsage{x509.ExtKeyUsageClientAuth}, SubjectKeyId: ski, BasicConstraintsValid: true,
+			}
+			der, err := x509.CreateCertificate(crand.Reader, tpl, tpl, priv.Public(), priv)
+			if err != nil {
+				panic(err)
+			}
+			oddCerts[name] = &tls.Certificate{Certificate: [][]byte{der}, PrivateKey: priv}
+		}
+		ek, _ := ecdsa.GenerateKey(elliptic.P256(), crand.Reader)
+		epk, _ := x509.MarshalPKIXPublicKey(ek.Public())
+		mk("ecdsa", ek, epk)
+		mk("ecdsa-no-ski", ek, nil)
+		rk, _ := rsa.GenerateKey(crand.Reader, 2048)
+		rpk, _ := x509.MarshalPKIXPublicKey(rk.Public())
+		mk("rsa", rk, rpk)
+	})
+	return oddCerts[kind]
+}
+
 // send delivers one hostile input and returns the client's local address
 func (w *fzWorld) send(fc fzCase, self *world.Keys) (string, net.Conn, error) {
 	raw, err := net.Dial("tcp", w.lw.Addr)
@@ -135,7 +181,12 @@ func (w *fzWorld) send(fc fzCase, self *world.Keys) (string, net.Conn, error) {
 		protos[i] = string(p)
 	}
 	cfg := &tls.Config{NextProtos: protos, InsecureSkipVerify: true, MinVersion: tls.VersionTLS13}
-	if fc.Cert != "none" {
+	switch fc.Cert {
+	case "none":
+	case "ecdsa", "rsa", "ecdsa-no-ski":
+		cert := oddClientCert(fc.Cert)
+		cfg.GetClientCertificate = func(*tls.CertificateRequestInfo) (*tls.Certificate, error) { return cert, nil }
+	default:
 		now := time.Now()
 		der := world.MintSelfSigned(self, world.LeafSpec{SubjectKeyID: self.Pkix, DNSNames: []string{nodeenrollment.CommonDnsName}, NotBefore: now.Add(-5 * time.Minute), NotAfter: now.Add(5 * time.Minute), EKU: []x509.ExtKeyUsage{x509.ExtKeyUsageClientAuth}})
 		cert := &tls.Certificate{Certificate: [][]byte{der}, PrivateKey: self.Priv}
@@ -480,6 +531,24 @@ func (w *fzWorld) genCases(c *engine.Ctx, rng *rand.Rand) []fzCase {
 		}
 	}
 
+	// well-formed requests presented with client certificates the library never issues
+	// (other key types, no certificate at all)
+	for _, ck := range []string{"ecdsa", "rsa", "ecdsa-no-ski", "none"} {
+		n := world.RandBytes(32)
+		areq := &types.GenerateServerCertificatesRequest{CertificatePublicKeyPkix: w.reg.K.Pkix, Nonce: n, NonceSignature: ed25519.Sign(w.reg.K.Priv, n)}
+		ab, _ := proto.Marshal(areq)
+		fk := world.NewKeys()
+		fb, _ := proto.Marshal(world.Sign(world.BaseInfo(fk, enc.Pub, world.RandBytes(32)), fk.Priv))
+		for _, it := range []struct {
+			what string
+			l    [][]byte
+		}{{"signed auth", protosOf(ap, b64(ab))}, {"signed fetch", protosOf(fp, b64(fb))}, {"auth then fetch", append(protosOf(ap, b64(ab)), protosOf(fp, b64(fb))...)}, {"h2", [][]byte{[]byte("h2")}}} {
+			if validALPN(it.l) {
+				out = append(out, fzCase{Class: "odd-client-cert", Detail: it.what + " with " + ck + " certificate", Protos: it.l, Cert: ck, Config: w.cfg})
+			}
+		}
+	}
+
 	// (c) single-byte mutations of honest requests
 	nm := c.Pick(300, 0)
 	for _, it := range []struct {
@@ -621,10 +690,17 @@ func runFuzzListen(c *engine.Ctx) engine.Result {
 			// after Close the error must be non-temporary
 			_ = w.lw.IL.Close()
 			_, err := w.lw.IL.Accept()
-			if err == nil || world.IsTemporary(err) || !errors.Is(err, net.ErrClosed) {
-				r.Violation("closed-listener-error", fmt.Sprintf("Accept after Close returned %v (temporary=%v)", err, err != nil && world.IsTemporary(err)), map[string]any{"listener_config": cfg})
-			} else {
+			ownSentinel := cfg&1 != 0
+			switch {
+			case err == nil || world.IsTemporary(err):
+				r.Violation("closed-listener-error", fmt.Sprintf("Accept after Close returned %v (temporary=%v; base listener reports closure with its own sentinel: %v)", err, err != nil && world.IsTemporary(err), ownSentinel), map[string]any{"listener_config": cfg})
+			case !ownSentinel && !errors.Is(err, net.ErrClosed):
+				r.Violation("closed-listener-error", fmt.Sprintf("Accept after Close returned %v, which is not net.ErrClosed", err), map[string]any{"listener_config": cfg})
+			default:
 				r.Count("closed_listener_reports_non_temporary", 1)
+				if ownSentinel {
+					r.Count("closed_listener_reports_non_temporary:own-sentinel", 1)
+				}
 			}
 		}(cfg)
 	}
@@ -634,8 +710,10 @@ func runFuzzListen(c *engine.Ctx) engine.Result {
 	r.Require("temporary_errors", 50)
 	r.Require("class:signed-hostile", 10)
 	r.Require("class:signed-with-certpref", 10)
+	r.Require("class:odd-client-cert", 16)
 	r.Require("class:raw", 10)
 	r.Require("class:dropped", 10)
 	r.Require("closed_listener_reports_non_temporary", 4)
+	r.Require("closed_listener_reports_non_temporary:own-sentinel", 2)
 	return res
 }
